@@ -1,4 +1,5 @@
 import Qvnt.Props.C18
+import Qvnt.Props.Code.C18
 open Qvnt
 #print axioms C18_rollback
 #print axioms C18_error_iff
@@ -6,3 +7,6 @@ open Qvnt
 #print axioms C18_accept
 #print axioms C18_prefix_discarded
 #print axioms C18_delta_untouched
+#print axioms C18_code_error_exits_first
+#print axioms C18_code_add_ast
+#print axioms C18_code_new
